@@ -22,6 +22,9 @@ func init() {
 var c17WideVals = []string{"", "9007199254740992", "9007199254740993", "9007199254740994", "9223372036854775806", "9223372036854775807", "-9007199254740993"}
 
 func c17WideRun(c *core.Ctx) {
+	if c17SkipFamily("wide-keys") {
+		return
+	}
 	dir := core.Scratch("c17wide")
 	maxRows := 3
 	if c.Thorough() || c17OnlySeq != nil {
